@@ -191,6 +191,11 @@ impl AssetInfo {
                 // prefix must follow -> https://github.com/osmosis-labs/osmosis/pull/2223
                 match denom.chars().next().unwrap() {
                     'u' => Ok(6u8),  // micro
+                    // verification hook: reduced-scale denoms (compiled out unless --cfg margined_verif)
+                    #[cfg(margined_verif)]
+                    'd' => Ok(1u8),
+                    #[cfg(margined_verif)]
+                    'c' => Ok(2u8),
                     'n' => Ok(9u8),  // nano
                     'p' => Ok(12u8), // pico
                     _ => Err(StdError::generic_err(
